@@ -514,8 +514,8 @@ theorem nconcat_coarsens (cfg : NCfg) (P : List Char → POut) {path : List Node
           exact concatNodes_coarsens cfg h (hpos hp) (fun _ => hgt)
         · cases h; exact Coarsens.refl _
 
-theorem nstep_coarsens (cfg : NCfg) (cat : List Nat) (P : List Char → POut) {st st' : NState}
-    (h : nstep cfg cat P st = .ok st') : Coarsens (RN cfg) st.path st'.path := by
+theorem nstep_coarsens (v : NVariant) (cfg : NCfg) (cat : List Nat) (P : List Char → POut)
+    {st st' : NState} (h : nstep v cfg cat P st = .ok st') : Coarsens (RN cfg) st.path st'.path := by
   unfold nstep at h
   simp only at h
   repeat (any_goals (first
@@ -533,9 +533,9 @@ theorem ntail_coarsens (cfg : NCfg) (P : List Char → POut) {st : NState} {q : 
     | exact nconcat_coarsens cfg P h
     | (cases h <;> exact Coarsens.refl _)))
 
-theorem nloop_coarsens (cfg : NCfg) (cat : List Nat) (P : List Char → POut) :
+theorem nloop_coarsens (v : NVariant) (cfg : NCfg) (cat : List Nat) (P : List Char → POut) :
     ∀ (fuel : Nat) (st : NState) (q : List Node),
-      nloop cfg cat P fuel st = .ok q → Coarsens (RN cfg) st.path q := by
+      nloop v cfg cat P fuel st = .ok q → Coarsens (RN cfg) st.path q := by
   intro fuel
   induction fuel with
   | zero => intro st q h; simp [nloop] at h
@@ -545,7 +545,7 @@ theorem nloop_coarsens (cfg : NCfg) (cat : List Nat) (P : List Char → POut) :
     split at h
     · split at h
       · rename_i st' hs
-        exact (ih _ _ h).trans (RN_compositional cfg) (nstep_coarsens cfg cat P hs)
+        exact (ih _ _ h).trans (RN_compositional cfg) (nstep_coarsens v cfg cat P hs)
       all_goals cases h
     · exact ntail_coarsens cfg P h
 
@@ -561,12 +561,12 @@ def RS (poses : List Nat) (_blk : List Node) (m : Node) : Prop := m.pos ∈ pose
 
 theorem RS_compositional (poses : List Nat) : Compositional (RS poses) := fun _ _ _ _ _ h => h
 
-theorem applyPlugin_coarsens (cat : List Nat) (P : List Char → POut) (pl : Plugin) (rest : List Plugin)
-    {path q : List Node} (h : applyPlugin cat P pl path = .ok q) :
+theorem applyPlugin_coarsens (v : NVariant) (cat : List Nat) (P : List Char → POut) (pl : Plugin)
+    (rest : List Plugin) {path q : List Node} (h : applyPlugin v cat P pl path = .ok q) :
     Coarsens (RS (prescribed (pl :: rest))) path q := by
   cases pl with
   | numeric cfg =>
-    have := nloop_coarsens cfg cat P _ _ _ h
+    have := nloop_coarsens v cfg cat P _ _ _ h
     exact this.mono (fun blk m hr => by simp [RS, prescribed, hr.1])
   | katakana cfg =>
     have := kloop_coarsens cfg cat _ _ _ _ h
@@ -577,8 +577,8 @@ theorem prescribed_tail_subset (pl : Plugin) (rest : List Plugin) :
   intro x hx
   cases pl <;> simp [prescribed, hx]
 
-theorem rewriteAll_coarsens (cat : List Nat) (P : List Char → POut) :
-    ∀ (pls : List Plugin) (path q : List Node), rewriteAll cat P pls path = .ok q →
+theorem rewriteAll_coarsens (v : NVariant) (cat : List Nat) (P : List Char → POut) :
+    ∀ (pls : List Plugin) (path q : List Node), rewriteAll v cat P pls path = .ok q →
       Coarsens (RS (prescribed pls)) path q := by
   intro pls
   induction pls with
@@ -588,7 +588,7 @@ theorem rewriteAll_coarsens (cat : List Nat) (P : List Char → POut) :
     unfold rewriteAll at h
     split at h
     · rename_i p' hp
-      have h1 := applyPlugin_coarsens cat P pl rest hp
+      have h1 := applyPlugin_coarsens v cat P pl rest hp
       have h2 : Coarsens (RS (prescribed (pl :: rest))) p' q :=
         (ih _ _ h).mono (fun blk m hr => prescribed_tail_subset pl rest _ hr)
       exact h2.trans (RS_compositional _) h1
@@ -794,5 +794,244 @@ theorem coarsens_of_aligned : ∀ (bs : List (List Node)) (q : List Node), Align
       rcases h1 with rfl | ⟨hs, hr⟩
       · exact .keep m (ih q h2)
       · exact .merge blk m hs hr (ih q h2)
+
+/-! ## termination of the numeric loop after the repair of F2 (variant `fix`)
+
+Every iteration of the repaired loop decreases, lexicographically, the triple
+(path length − start of the current run, number of armed separator flags, path length − index):
+
+* a numeric node whose characters the parser accepts keeps run start and flags and advances the index;
+* a failing `append` with COMMA/POINT whose flag is still set restarts at the run start (same run
+  start) and clears that flag — in the variant `cur` the restart also happens when the flag is
+  already clear, which is where the measure fails to decrease (F2);
+* every other failing `append` closes the run: the next run starts after the current node;
+* a non-numeric node closes the run (and may re-arm the flags): the next run starts at least two
+  nodes after the start of the closed one, whatever `concat` did to the path.
+-/
+
+theorem concatNodes_ne_fuel (path : List Node) (b e : Nat) (nf : Option (List Char)) :
+    concatNodes path b e nf ≠ .fuel := by
+  unfold concatNodes
+  intro h
+  repeat (any_goals (first | split at h | cases h | dsimp only at h))
+
+theorem nconcat_ne_fuel (cfg : NCfg) (P : List Char → POut) (path : List Node) (b e : Nat)
+    (acc : List Char) : nconcat cfg P path b e acc ≠ .fuel := by
+  unfold nconcat
+  intro h
+  repeat (any_goals (first
+    | exact concatNodes_ne_fuel _ _ _ _ h
+    | split at h | cases h | dsimp only at h))
+
+theorem nconcat_length {cfg : NCfg} {P : List Char → POut} {path : List Node} {b e : Nat}
+    {acc : List Char} {q : List Node} (h : nconcat cfg P path b e acc = .ok q) :
+    q.length = path.length ∨ (b < e ∧ e ≤ path.length ∧ q.length + (e - b) = path.length + 1) := by
+  have key : ∀ nf, concatNodes path b e nf = .ok q →
+      (b < e ∧ e ≤ path.length ∧ q.length + (e - b) = path.length + 1) := by
+    intro nf hc
+    obtain ⟨f, l, hbe, he, _, _, rfl⟩ := concatNodes_ok hc
+    refine ⟨hbe, he, ?_⟩
+    simp only [List.length_append, List.length_take, List.length_cons, List.length_drop]
+    omega
+  unfold nconcat at h
+  repeat (any_goals (first
+    | exact .inr (key _ h)
+    | (cases h; exact .inl rfl)
+    | split at h | cases h | dsimp only at h))
+
+theorem nstep_ne_fuel (v : NVariant) (cfg : NCfg) (cat : List Nat) (P : List Char → POut) (st : NState) :
+    nstep v cfg cat P st ≠ .fuel := by
+  unfold nstep
+  intro h
+  simp only at h
+  repeat (any_goals (first
+    | split at h
+    | cases h
+    | exact nconcat_ne_fuel _ _ _ _ _ _ (by assumption)))
+
+theorem ntail_ne_fuel (cfg : NCfg) (P : List Char → POut) (st : NState) : ntail cfg P st ≠ .fuel := by
+  unfold ntail
+  intro h
+  simp only at h
+  repeat (any_goals (first
+    | exact nconcat_ne_fuel _ _ _ _ _ _ h
+    | split at h
+    | cases h))
+
+/-- loop invariant of `rewrite_gen`: `i ≥ -1`, and a run never starts after the index -/
+def NInv (st : NState) : Prop := -1 ≤ st.i ∧ st.beginIdx ≤ st.i
+
+/-- index of the node where the current run started, or of the next node if no run is open -/
+def runStart (st : NState) : Int := if st.beginIdx < 0 then st.i + 1 else st.beginIdx
+
+def nDist (st : NState) : Nat := ((st.path.length : Int) - runStart st).toNat
+def nFlags (st : NState) : Nat := st.comma.toNat + st.period.toNat
+def nRem (st : NState) : Nat := ((st.path.length : Int) - st.i).toNat
+
+
+def RunStart (st : NState) (s : Int) : Prop :=
+  (st.beginIdx < 0 ∧ s = st.i + 1) ∨ (0 ≤ st.beginIdx ∧ s = st.beginIdx)
+
+def NProg (st' st : NState) : Prop :=
+  ∀ s s', RunStart st s → RunStart st' s' →
+  ((st'.path.length : Int) - s' < (st.path.length : Int) - s ∨
+  (st'.path.length = st.path.length ∧ s' = s ∧
+    (nFlags st' < nFlags st ∨ (nFlags st' = nFlags st ∧ st'.i = st.i + 1))))
+
+
+set_option linter.unusedSimpArgs false in
+theorem nstep_fix_progress {cfg : NCfg} {cat : List Nat} {P : List Char → POut} {st st' : NState}
+    (h : nstep .fix cfg cat P st = .ok st') (hinv : NInv st) :
+    NInv st' ∧ st'.path.length ≤ st.path.length ∧ NProg st' st := by
+  obtain ⟨hi, hb⟩ := hinv
+  unfold nstep at h
+  simp only at h
+  repeat (any_goals (first
+    | split at h
+    | (cases h; done)
+    | (cases h
+       simp only [NInv, NProg, RunStart, nFlags, true_and, and_true, or_true, true_or,
+         Bool.toNat_false, Bool.toNat_true]
+       refine ⟨by omega, by omega, ?_⟩
+       intro s s' hs hs'
+       omega)
+    | (cases h
+       have hf := Bool.and_eq_true_iff.mp (by assumption)
+       simp only [NInv, NProg, RunStart, nFlags, hf.2, true_and, and_true, or_true, true_or,
+         Bool.toNat_false, Bool.toNat_true]
+       refine ⟨by omega, by omega, ?_⟩
+       intro s s' hs hs'
+       omega)
+    | (cases h
+       have hc := nconcat_length (cfg := cfg) (P := P) (by assumption)
+       simp only [NInv, NProg, RunStart, nFlags, true_and, and_true, or_true, true_or,
+         Bool.toNat_false, Bool.toNat_true]
+       refine ⟨by omega, by omega, ?_⟩
+       intro s s' hs hs'
+       omega)))
+
+theorem runStart_spec (st : NState) : RunStart st (runStart st) := by
+  unfold RunStart runStart
+  split
+  · exact .inl ⟨by assumption, rfl⟩
+  · exact .inr ⟨by omega, rfl⟩
+
+theorem nFlags_le (st : NState) : nFlags st ≤ 2 := by
+  unfold nFlags
+  have := Bool.toNat_le st.comma
+  have := Bool.toNat_le st.period
+  omega
+
+/-- decreasing measure of the repaired loop, for paths of at most `N` nodes: (distance of the run
+start from the end of the path, number of armed separator flags, distance of the index from the
+end), lexicographically -/
+def nMeasure (N : Nat) (st : NState) : Nat :=
+  ((st.path.length : Int) - runStart st).toNat * (3 * (N + 2)) + nFlags st * (N + 2) +
+    ((st.path.length : Int) - st.i).toNat
+
+theorem nMeasure_decreases {N : Nat} {st st' : NState} (hinv : NInv st) (hinv' : NInv st')
+    (hg : st.i < (st.path.length : Int) - 1) (hl : st'.path.length ≤ st.path.length)
+    (hN : st.path.length ≤ N) (hp : NProg st' st) : nMeasure N st' < nMeasure N st := by
+  have hs := runStart_spec st
+  have hs' := runStart_spec st'
+  have hp := hp _ _ hs hs'
+  unfold nMeasure
+  generalize runStart st = s at *
+  generalize runStart st' = s' at *
+  have hf := nFlags_le st
+  have hf' := nFlags_le st'
+  generalize nFlags st = f at *
+  generalize nFlags st' = f' at *
+  unfold RunStart at hs hs'
+  unfold NInv at hinv hinv'
+  generalize hd : ((st.path.length : Int) - s).toNat = d
+  generalize hd' : ((st'.path.length : Int) - s').toNat = d'
+  have hfm' : f' * (N + 2) ≤ 2 * (N + 2) := Nat.mul_le_mul_right _ hf'
+  rcases hp with hlt | ⟨hL, hss, hlt | ⟨hff, hi⟩⟩
+  · have hdd : d' + 1 ≤ d := by omega
+    have hm : (d' + 1) * (3 * (N + 2)) ≤ d * (3 * (N + 2)) := Nat.mul_le_mul_right _ hdd
+    rw [Nat.succ_mul] at hm
+    generalize d' * (3 * (N + 2)) = x' at *
+    generalize d * (3 * (N + 2)) = x at *
+    generalize f' * (N + 2) = y' at *
+    generalize f * (N + 2) = y at *
+    omega
+  · have hdd : d' = d := by omega
+    subst hdd
+    have hm : (f' + 1) * (N + 2) ≤ f * (N + 2) := Nat.mul_le_mul_right _ hlt
+    rw [Nat.succ_mul] at hm
+    generalize d' * (3 * (N + 2)) = x' at *
+    generalize f' * (N + 2) = y' at *
+    generalize f * (N + 2) = y at *
+    omega
+  · have hdd : d' = d := by omega
+    subst hdd
+    subst hff
+    omega
+
+theorem fuel_arith (n : Nat) : n * (3 * (n + 2)) + 2 * (n + 2) + (n + 1) < 4 * (n + 1) * (n + 1) + 8 := by
+  have h1 : n * (3 * (n + 2)) = 3 * (n * n) + 6 * n := by
+    simp only [Nat.mul_add, Nat.mul_left_comm n 3]; omega
+  have h2 : 4 * (n + 1) * (n + 1) = 4 * (n * n) + 8 * n + 4 := by
+    simp only [Nat.mul_add, Nat.add_mul, Nat.mul_one, Nat.mul_assoc]; omega
+  have h3 : n ≤ n * n := Nat.le_mul_self n
+  rw [h1, h2]
+  generalize n * n = q at *
+  omega
+
+theorem nMeasure_init (path : List Node) : nMeasure path.length (nInit path) < nFuel path := by
+  have e1 : runStart (nInit path) = 0 := rfl
+  have e2 : nFlags (nInit path) = 2 := rfl
+  have e3 : (((nInit path).path.length : Int) - 0).toNat = path.length := by simp only [nInit]; omega
+  have e4 : (((nInit path).path.length : Int) - (nInit path).i).toNat = path.length + 1 := by
+    simp only [nInit]; omega
+  unfold nMeasure nFuel
+  rw [e1, e2, e3, e4]
+  exact fuel_arith path.length
+
+theorem nloop_fix_terminates (cfg : NCfg) (cat : List Nat) (P : List Char → POut) (N : Nat) :
+    ∀ (fuel : Nat) (st : NState), NInv st → st.path.length ≤ N → nMeasure N st < fuel →
+      nloop .fix cfg cat P fuel st ≠ .fuel := by
+  intro fuel
+  induction fuel with
+  | zero => intro st _ _ h; omega
+  | succ fuel ih =>
+    intro st hinv hN hf
+    unfold nloop
+    split
+    · rename_i hg
+      split
+      · rename_i st' hs
+        obtain ⟨hinv', hl, hp⟩ := nstep_fix_progress hs hinv
+        have := nMeasure_decreases hinv hinv' hg hl hN hp
+        exact ih st' hinv' (by omega) (by omega)
+      · intro h; cases h
+      · intro h; cases h
+      · rename_i hs; exact absurd hs (nstep_ne_fuel _ _ _ _ _)
+    · exact ntail_ne_fuel cfg P st
+
+theorem nInit_inv (path : List Node) : NInv (nInit path) := by
+  simp only [NInv, nInit]; omega
+
+theorem joinNumeric_fix_ne_fuel (cfg : NCfg) (cat : List Nat) (P : List Char → POut) (path : List Node) :
+    joinNumeric .fix cfg cat P path ≠ .fuel :=
+  nloop_fix_terminates cfg cat P path.length _ _ (nInit_inv path) (Nat.le_refl _) (nMeasure_init path)
+
+theorem rewriteAll_fix_ne_fuel (cat : List Nat) (P : List Char → POut) :
+    ∀ (pls : List Plugin) (path : List Node), rewriteAll .fix cat P pls path ≠ .fuel := by
+  intro pls
+  induction pls with
+  | nil => intro path h; cases h
+  | cons pl rest ih =>
+    intro path
+    unfold rewriteAll
+    split
+    · exact ih _
+    · intro h; cases h
+    · intro h; cases h
+    · rename_i hp
+      cases pl with
+      | numeric cfg => exact absurd hp (joinNumeric_fix_ne_fuel cfg cat P path)
+      | katakana cfg => exact absurd hp (kloop_terminates cfg cat _ path 0 (by simp [kFuel]))
 
 end Rewrite
